@@ -99,6 +99,10 @@ def corpus():
         {"op": "type", "name": "E", "incl": False, "desc": True},
         {"op": "type", "name": "Query", "incl": False, "desc": True},
         {"op": "type", "name": "Query", "incl": True, "desc": True}]})
+    # list defaults whose string items need escapes: rendered through json.dumps, they read back
+    # (witness of seeded change C15-c: item-by-item raw rendering)
+    out.append({"mode": "special", "special": "list_escapes", "ops": _STD_OPS + [
+        {"op": "type", "name": "Query", "incl": True, "desc": False}]})
     # row 40: how python_name-keyed input-object defaults show up
     out.append({"mode": "special", "special": "python_name", "ops": _STD_OPS})
     sdl = '''
